@@ -89,7 +89,20 @@ def getitem(it, base, key):
                         keep.append(r)
                     if keep is not None:
                         it.assumptions_used = getattr(it, "assumptions_used", set()) | {"isnan(computed value) is False in a NaN-stripping mask (generic finite inputs)"}
-                        return NA([x for x, r in zip(base.data, keep) if r], 1)
+                        # ... but a computed element that may be NaN on valid candles (0/0 on a flat candle, x/0 on a no-trade
+                        # candle) is dropped when it is: the position of every surviving element then depends on it
+                        from .indic_finite import may_be_nonfinite
+                        from .indic_vals import mk
+                        sus = [x for x, r in zip(base.data, keep) if r and isinstance(x, D) and may_be_nonfinite(x)]
+                        kept = [x for x, r in zip(base.data, keep) if r]
+                        if sus:
+                            m_all = 0
+                            for x in sus:
+                                m_all |= x.m
+                            # one carrier node for "whether any of them is NaN"
+                            carrier = sus[0] if len(sus) == 1 else D(m_all, hash(("nan-any",) + tuple(x.h for x in sus)), "nanany", tuple(sus))
+                            kept = [mk("dep", y, carrier) if isinstance(y, D) else y for y in kept]
+                        return NA(kept, 1)
                 if any(isinstance(k, D) for k in key.data):
                     raise Undecided("data-dependent fancy index / mask")
                 return NA([base.data[_int(k)] for k in key.data], 1)
@@ -818,7 +831,24 @@ def np_tril(it, args, kw):
 def np_flatnonzero(it, args, kw):
     a = to_na(args[0])
     if any(isinstance(x, D) for x in a.data):
-        raise Undecided("flatnonzero on data-dependent array")
+        # flatnonzero(~isnan(x)) / flatnonzero(isnan(x)): positions of the non-NaN elements; as in the x[~isnan(x)] idiom a computed
+        # element counts as a number, the constant padding as NaN (the positions are then concrete)
+        out = []
+        for i, k in enumerate(a.data):
+            if isinstance(k, D):
+                neg = False
+                kk = k
+                while kk.op in ("not", "invert") and len(kk.args) == 1 and isinstance(kk.args[0], D):
+                    kk, neg = kk.args[0], not neg
+                if kk.op != "isnan":
+                    raise Undecided("flatnonzero on data-dependent array")
+                truth = neg            # isnan(computed) taken as False
+            else:
+                truth = bool(k)
+            if truth:
+                out.append(i)
+        it.assumptions_used = getattr(it, "assumptions_used", set()) | {"isnan(computed value) is False in flatnonzero (generic finite inputs)"}
+        return NA(out, 1)
     return NA([i for i, x in enumerate(a.data) if x], 1)
 
 
